@@ -212,7 +212,7 @@ def build(names, tools=True):
 
 
 WRAP_SYMS = ["read", "write", "lseek", "ftruncate", "mkstemp", "close", "pread", "pwrite", "readv", "writev",
-             "lseek64", "pread64", "pwrite64", "mkstemp64", "ftruncate64", "__read_chk"]
+             "lseek64", "pread64", "pwrite64", "mkstemp64", "ftruncate64", "__read_chk", "sendfile", "sendfile64", "copy_file_range", "splice"]
 
 
 def zh(fl):
